@@ -57,6 +57,10 @@ def par_loops(ir, depth=0, out=None, in_callee=False, seen=None):
 def judge(ctx, sess, proc, rng, ninputs, emit=True):
     """returns sig or None"""
     ir = proc._loopir_proc
+    if ir.instr is not None:
+        # the body of an instruction is never emitted (its macro is): nothing is compiled
+        ctx.stat("par.skipped_instr_proc")
+        return None
     pls = par_loops(ir)
     if not pls:
         return None
@@ -185,7 +189,7 @@ def one(ctx, rng):
             st = {"op": "parallelize_loop", "args": [D_node(p)], "kw": {}}
         else:
             st = random_step(sess, rng)
-            if st is None or is_unsafe_step(st):
+            if st is None or is_unsafe_step(st) or st["op"] == "make_instr":
                 continue
         r = apply_step(sess, st)
         if r.status == "accepted" and st["op"] == "parallelize_loop":
